@@ -43,13 +43,16 @@ func consumeSingleTURNFrame(b []byte) (int, error) {
 	// fields close to 0xFFFF and report a zero-length frame.
 	var datagramSize int
 	switch {
-	case stun.IsMessage(b):
-		datagramSize = int(binary.BigEndian.Uint16(b[2:4])) + stunHeaderSize
+	// The channel number range (first two bits 0b01) never overlaps with a
+	// STUN message type (first two bits 0b00), so test it first: a
+	// ChannelData payload may itself start with the STUN magic cookie.
 	case ChannelNumber(binary.BigEndian.Uint16(b[0:2])).Valid():
 		datagramSize = int(binary.BigEndian.Uint16(b[channelDataNumberSize:channelDataHeaderSize]))
 		datagramSize = nearestPaddedValueLength(datagramSize) + channelDataHeaderSize
 	case len(b) < stunHeaderSize:
 		return 0, errIncompleteTURNFrame
+	case stun.IsMessage(b):
+		datagramSize = int(binary.BigEndian.Uint16(b[2:4])) + stunHeaderSize
 	default:
 		return 0, errInvalidTURNFrame
 	}
